@@ -27,16 +27,17 @@ int main(void){
   for (z = 0; z < n && t[z] != 0; z++) ;                       /* first NUL (symbolic position) */
   r0 = U(uriParseSingleUriExMm)(&ref, t, t + z, &e0, &mm);
   which = uk_choice(4, "entry");
+  { long libc_before = uk_live_libc();
   if (which == 0){ st.uri = &u; r = U(uriParseUriEx)(&st, t, t + z); e = st.errorPos; uk_assert(st.errorCode == r || r == URI_SUCCESS, "C01: state error code equals the return code"); uk_cover("uriParseUriEx"); }
   else if (which == 1){ st.uri = &u; r = U(uriParseUri)(&st, t); e = st.errorPos; uk_cover("uriParseUri"); }
   else if (which == 2){ r = U(uriParseSingleUri)(&u, t, &e); uk_cover("uriParseSingleUri"); }
   else { r = U(uriParseSingleUriEx)(&u, t, 0, &e); uk_cover("uriParseSingleUriEx-NULL-afterLast"); }
-  if (r != URI_SUCCESS) uk_assert(uk_live_libc() == 0, "C03: nothing stays allocated after a failed parse through any entry point (before the caller frees anything)");
+  if (r != URI_SUCCESS) uk_assert(uk_live_libc() == libc_before, "C03: nothing stays allocated after a failed parse through any entry point (before the caller frees anything)");
   uk_assert(r == r0, "C01: every parse entry point returns the same code as uriParseSingleUriExMm on the same text");
   if (r0 != URI_SUCCESS && r == r0) uk_assert(e != 0 && e0 != 0 && (e - t) == (e0 - t), "C01: every parse entry point reports the same error position");
   if (r0 == URI_SUCCESS && r == URI_SUCCESS){ same_uri(&ref, t, &u, t); uk_cover("accepted"); } else uk_cover("rejected");
   if (r == URI_SUCCESS || which <= 1) U(uriFreeUriMembers)(&u);
   if (r0 == URI_SUCCESS) U(uriFreeUriMembersMm)(&ref, &mm);
-  uk_assert(uk_live() == 0 && uk_live_libc() == 0, "C03: nothing stays allocated");
+  uk_assert(uk_live() == 0 && uk_live_libc() == libc_before, "C03: nothing stays allocated"); }
   return 0;
 }
